@@ -1309,9 +1309,11 @@ class Compiler:
         fallback = identifier("__fallback", id(node))
         body += template("fallback = len(__stream)", fallback=fallback)
 
-        self._enter_assignment((node.name, ))
+        # The error variable is there for the fallback only.
+        names = (node.name, )
+        body += self._enter_assignment(names)
         fallback_body = self.visit(node.fallback)
-        self._leave_assignment((node.name, ))
+        fallback_body += self._leave_assignment(names)
 
         # The failure may have come out of a macro call, before which the
         # token is reset: then there is no position to report here.  The
